@@ -187,7 +187,7 @@ TypeOf(prog, e, env) ==
                      THEN [k |-> "enum", name |-> e.name] ELSE Err
       [] e.k = "match" ->
             LET t == TypeOf(prog, e.e, env)
-            IN  IF t = Err \/ e.arms = <<>> THEN Err
+            IN  IF t = Err \/ e.arms = <<>> \/ t.k = "arr" THEN Err      \* arrays do not support pattern matching (documented)
                 ELSE LET ArmT(a) == LET p == PatT(prog, a.p, t)
                                     IN  IF p.ok THEN TypeOf(prog, a.b, BindAllT(Append(env, <<>>), p.binds)) ELSE Err
                          ts == [i \in 1..Len(e.arms) |-> ArmT(e.arms[i])]
